@@ -1,3 +1,4 @@
+import Rtcm.Lemmas.Helpers
 import Rtcm.Lemmas.Crc
 import Rtcm.Lemmas.Message
 import Rtcm.Gen.Tables
@@ -97,5 +98,27 @@ theorem C07_bytes_literal_roundtrip (m : Msg) : evalReprPayload (msgRepr m) = so
 example : bytesRepr [39, 34, 92, 9, 10, 13, 1, 200, 65]
     = [98, 39, 92, 39, 34, 92, 92, 92, 116, 92, 110, 92, 114, 92, 120, 48, 49, 92, 120, 99, 56, 65, 39] := by decide
 example : bytesRepr [39, 65] = [98, 34, 39, 65, 34] := by decide
+
+/-! ### `escapeall` (used by the string form for bytes values) is read back to the same bytes -/
+
+/-- the literal `escapeall(bs)` evaluates to `bs`: the model's bytes-literal reader returns exactly
+    `bs` and nothing is left over, for every byte string -/
+theorem C07_escapeall_eval (bs : Bytes) :
+    (match escapeall bs with
+     | 98 :: 39 :: rest => parseBody 39 rest
+     | _ => none) = some (bs, []) := by
+  simp only [escapeall]
+  exact parseBody_escBody bs []
+
+/-- hence `escapeall` is injective, and its length is `3 + 4·len` -/
+theorem C07_escapeall_injective (a b : Bytes) (h : escapeall a = escapeall b) : a = b := by
+  have ha := C07_escapeall_eval a
+  rw [h, C07_escapeall_eval b] at ha
+  simpa using ha.symm
+
+theorem C07_escapeall_length (bs : Bytes) : (escapeall bs).length = 3 + 4 * bs.length := by
+  simp [escapeall, escBody_length]; omega
+
+example : escapeall [0x73, 0x0a, 0xff] = [98, 39, 92, 120, 55, 51, 92, 120, 48, 97, 92, 120, 102, 102, 39] := by decide
 
 end Rtcm
